@@ -473,7 +473,7 @@ pub const HEAP_SLACK: usize = 2 << 20;
 
 pub fn c05_case(subject: &dyn Subject, input: &[u8], spec: &Spec) -> Option<(String, String)> {
     crate::alloc::start();
-    let t0 = std::time::Instant::now();
+    let t0 = crate::cputime::thread_cpu_secs();
     let ex = run_spec(subject, input, spec);
     let (peak, largest) = crate::alloc::stop();
     let consumed = ex.src.borrow().pos;
@@ -485,8 +485,9 @@ pub fn c05_case(subject: &dyn Subject, input: &[u8], spec: &Spec) -> Option<(Str
     if peak > allowed {
         return Some(("heap".to_string(), format!("peak requested heap {peak} bytes (largest single request {largest}) after consuming {consumed} input bytes; bound {allowed}")));
     }
-    if t0.elapsed().as_secs_f64() > 2.0 {
-        return Some(("time".to_string(), format!("took {:.1}s for {} bytes", t0.elapsed().as_secs_f64(), input.len())));
+    let cpu = crate::cputime::thread_cpu_secs() - t0;
+    if cpu > 2.0 {
+        return Some(("time".to_string(), format!("took {cpu:.1}s of CPU time for {} bytes", input.len())));
     }
     None
 }
